@@ -157,7 +157,8 @@ func (f *File) RowContent() []string {
 	if f.currentRow == nil {
 		return []string{}
 	}
-	return f.currentRow.cells
+	// The CSV reader reuses the record across rows, so return a copy.
+	return append([]string(nil), f.currentRow.cells...)
 }
 
 func (f *File) RowNumber() int {
